@@ -18,6 +18,7 @@ void ac_eval_begin(const char *s);
 int ac_eval_step(void);
 size_t ac_output(char *buf, size_t max);
 int hc_capture(int cmd, int argc, const int *off, const int *term, const char (*arg)[81]);
+void hc_complete(int cmd);
 }
 
 const char *H_NAME = "console";
@@ -41,7 +42,8 @@ struct State {
 	std::vector<std::string> names; // successfully registered, index = adapter command index
 	std::vector<int> yields;
 	std::vector<Capture> caps;       // since the last sync point
-	unsigned long total_caps = 0, total_lines = 0;
+	unsigned long total_caps = 0, total_lines = 0, total_done = 0;
+	int last_cmd = -1;
 	// editing model
 	std::string buf;
 	bool desync = false;
@@ -187,6 +189,14 @@ void sync(Ctx &c, State &s, const char *ctx)
 	for (auto &k : caps)
 		if (!sane(c, s, k, ctx))
 			return;
+	// a dispatched command runs to completion (it is resumed after each of its yields) before the console goes idle
+	if (s.total_done != s.total_caps) {
+		c.fail("%s: %lu commands were dispatched but only %lu ran to completion by the time the console went idle (the last one dispatched, '%s', yields %d times%s)",
+		       ctx, s.total_caps, s.total_done, s.last_cmd >= 0 && s.last_cmd < (int)s.names.size() ? s.names[s.last_cmd].c_str() : "?",
+		       s.last_cmd >= 0 && s.last_cmd < (int)s.yields.size() ? s.yields[s.last_cmd] & 15 : 0,
+		       s.last_cmd >= 0 && s.last_cmd < (int)s.yields.size() && (s.yields[s.last_cmd] & 16) ? " and stores state in the scratch area" : "");
+		return;
+	}
 	if (done.empty() && !caps.empty() && s.buf.size() == 79) {
 		// "the buffer filling" completes a line: an implementation may dispatch as soon as the 79th character is stored
 		// instead of when the next one arrives - both read the statement correctly. Accept it as the fill completion.
@@ -447,7 +457,14 @@ extern "C" int hc_capture(int cmd, int argc, const int *off, const int *term, co
 	}
 	s.caps.push_back(k);
 	s.total_caps++;
+	s.last_cmd = cmd;
 	return cmd >= 0 && cmd < (int)s.yields.size() ? s.yields[cmd] : 0;
+}
+
+extern "C" void hc_complete(int cmd)
+{
+	(void)cmd;
+	S->total_done++;
 }
 
 void h_run(Ctx &c)
